@@ -86,7 +86,7 @@ def mutate(rng, fr):
         return g, kind, old
     if kind == 'dtype':
         c = rng.choice(g['cols'])
-        alt = {'int64': 'float64', 'Int64': 'int64', 'float64': 'float32', 'float32': 'float64', 'bool': 'boolean',
+        alt = {'int64': 'float64', 'Int64': 'int64', 'float64': 'Float64', 'float32': 'float32', 'bool': 'boolean',
                'boolean': 'bool', 'object-str': 'string', 'string': 'object-str', 'str': 'object-str',
                'category': 'object-str', 'datetime64[ns]': 'datetime64[s]', 'datetime64[s]': 'datetime64[ns]',
                'object-bool': 'bool', 'uint8': 'int64', 'Float64': 'float64'}[c['fam']]
@@ -284,7 +284,10 @@ class C05(core.Prop):
         rcol = {c['name']: c for c in ref['cols']}
         acol = {c['name']: c for c in act['cols']}
         ct = self._resolved(case['check_types'], rn)
-        # extra columns are not checked by assertDataFramesEqual (no check_extra_cols parameter there)
+        # extra columns: assertDataFramesEqual has no check_extra_cols parameter, so every actual column is
+        # checked against the reference ("the same columns")
+        if any(c not in rcol for c in an):
+            return False
         level = case['type_matching'] or 'strict'
         ref_df, act_df = cx.to_df(ref), cx.to_df(act)
 
@@ -313,7 +316,7 @@ class C05(core.Prop):
         prec = 6 if case['precision'] is None else case['precision']
         for c in cd:
             if c not in acol:
-                continue
+                return False     # a column selected for the value check is missing
             for x, y in zip(acol[c]['cells'], rcol[c]['cells']):
                 if not cells_equal(x, y, prec):
                     return False
